@@ -1,5 +1,6 @@
 import KoordVerif.Model.C11Decode
 import KoordVerif.Model.C11Rounds
+import KoordVerif.Model.C11Metric
 import KoordVerif.Generated.C11
 /-
 Tie lemmas for C11: constants, parse calls, cache guards and loop guard order of /repo's current source
@@ -66,5 +67,30 @@ theorem tie_executor_modes : KoordVerif.Generated.C11.executorTwoModes = true :=
 theorem tie_loop_guard_order :
     KoordVerif.Generated.C11.loopGuardOrder = true ∧ KoordVerif.Generated.C11.loopBreaks = 2 ∧
     KoordVerif.Generated.C11.loopBreaksUnderCoveredTest = true := by decide
+
+/-- `CollectPodMetricLast` queries the last `2 × collectInterval` (the harness hands `window = 2·interval` to
+    `podMetricLast`), aggregates with `AggregationTypeLast` over `[end − window, end]`, and every return either hands an error
+    variable on (never a literal `nil` error) or is the aggregate's own `Value(…)` pair, under no test other than
+    `… != nil` — there is no path that turns an empty result into a value (`podMetricLast … = (lastOf …).map …`, `lastOf [] = none`). -/
+theorem tie_collect_last :
+    KoordVerif.Generated.C11.collectLastWindowFactor = 2 ∧
+    KoordVerif.Generated.C11.collectLastReturnsOnlyErrOrAggregate = true ∧
+    KoordVerif.Generated.C11.queryParamsLastAggregatesLast = true ∧
+    KoordVerif.Generated.C11.queryParamsLastStartIsEndMinusWindow = true ∧
+    lastOf [] = none := by decide
+
+/-- `fieldLastOfMetricList`: empty input ⇒ error (`lastOf [] = none`); a later point replaces the current one
+    only on a strictly greater timestamp (`lastFrom`: `if x.age < best.age`). -/
+theorem tie_last_aggregate :
+    KoordVerif.Generated.C11.lastOfEmptyInputIsError = true ∧
+    KoordVerif.Generated.C11.lastReplacesOnStrictlyLaterTimestamp = true ∧
+    lastFrom ⟨5, 1⟩ [⟨5, 2⟩, ⟨3, 3⟩, ⟨3, 4⟩, ⟨7, 5⟩] = ⟨3, 3⟩ := by decide
+
+/-- both `getPodEvictInfoAndSortByPriority` (memoryevict, cpuevict) `continue` when `CollectPodMetricLast` errs
+    (`prioInfo?`: `if !p.hasMetric then none`); `CollectAllPodMetrics` (BE memory path) skips an empty result
+    (`beInfo?`: no metric ⇒ usage 0). -/
+theorem tie_filter_no_metrics :
+    KoordVerif.Generated.C11.prioBuildersSkippingOnMetricError = 2 ∧
+    KoordVerif.Generated.C11.collectAllPodMetricsSkipsEmptyResult = true := by decide
 
 end KoordVerif.C11
